@@ -581,6 +581,8 @@ pub fn run(a: &Args) -> i32 {
     let cross: u64 = a.extra.get("cross").and_then(|s| s.parse().ok()).unwrap_or(0);
     let recheck_every: u64 = a.extra.get("recheck-every").and_then(|s| s.parse().ok()).unwrap_or(100);
     let trace = a.extra.contains_key("trace");
+    let eventlog = a.extra.contains_key("eventlog");
+    let mut events = String::new();
     let stream = if large > 0 { "C20-large" } else { "C20" };
     let mut tot = Tot::default();
     let mut hashes: Vec<u64> = Vec::new();
@@ -624,6 +626,9 @@ pub fn run(a: &Args) -> i32 {
         let (reference, rinfo) = run_one(&sc, op, &input, &[], &refcfg);
         evaluations += 1;
         account(&mut tot, &sc, &refcfg, &rinfo);
+        if eventlog {
+            events.push_str(&format!("{} ref {:016x} {} {} {} {:016x}\n", r, rinfo.report.log_hash(), rinfo.report.stats.steps, rinfo.key_draws, rinfo.alloc.shuffled_choices, reference.digest()));
+        }
         if let Outcome::Panic(_) = reference {
             tot.add("reference_panics", 1);
         }
@@ -634,6 +639,9 @@ pub fn run(a: &Args) -> i32 {
             let (got, info) = run_one(&sc, op, &input, &pin, &cfg);
             evaluations += 1;
             account(&mut tot, &sc, &cfg, &info);
+            if eventlog {
+                events.push_str(&format!("{} {} {:016x} {} {} {} {:016x}\n", r, v, info.report.log_hash(), info.report.stats.steps, info.key_draws, info.alloc.shuffled_choices, got.digest()));
+            }
             let consulted = info.report.stats.joins > 0 || info.key_draws > 0 || info.alloc.shuffled_choices > 0;
             if consulted {
                 let h = mix(&[fnv1a(&serde_json::to_vec(&sc).unwrap()), fnv1a(&serde_json::to_vec(&cfg).unwrap()), info.report.log_hash()]);
@@ -696,6 +704,9 @@ pub fn run(a: &Args) -> i32 {
         cross_digests.push(format!("{:016x}", o.digest()));
     }
 
+    if eventlog {
+        std::fs::write(format!("{}/C20-shard{}.events", a.out_dir, a.shard_i), &events).expect("write events");
+    }
     hashes.sort_unstable();
     hashes.dedup();
     write_hashes(a, &hashes);
